@@ -170,7 +170,29 @@ def _one(w, spec):
     for _, r in accs:
         if r not in acc_order:
             acc_order.append(r)
+    transient = set()
+    for r in acc_order:
+        # a local list that is only filled and then iterated / tested inside the function (`stars = []; stars.append(..); for a, b in stars:`) is scaffolding:
+        # what it carries is compared where it arrives (the fields built from its elements), not as a list of its own
+        loads = [n for n in ast.walk(w.fn) if isinstance(n, ast.Name) and n.id == r and isinstance(n.ctx, ast.Load)]
+        def scaffolding(n):
+            par = getattr(n, "_parent", None)
+            if isinstance(par, ast.For) and par.iter is n:
+                return True
+            if isinstance(par, ast.Attribute) and par.attr in ("append", "extend") and isinstance(getattr(par, "_parent", None), ast.Call):
+                return True
+            if isinstance(par, ast.UnaryOp) and isinstance(par.op, ast.Not):
+                return True
+            if isinstance(par, (ast.If, ast.While)) and par.test is n:
+                return True
+            if isinstance(par, ast.Call) and isinstance(par.func, ast.Name) and par.func.id == "len":
+                return True
+            return False
+        if loads and all(scaffolding(n) for n in loads):
+            transient.add(r)
     for tgt, lst in w.appends.items():
+        if tgt in transient:
+            continue
         seen_nodes = set()
         for provs, op, node, guards in lst:
             if id(node) in seen_nodes:
